@@ -132,6 +132,11 @@ func report(eng *Engine, root, prop, tier string, seed int, results []*FuncResul
 		for k, n := range eng.unmodelled {
 			assumptions = append(assumptions, fmt.Sprintf("unmodelled call treated as havoc-everything (%d sites): %s", n, k))
 		}
+		for _, n := range notes {
+			if strings.Contains(n, "ABSTRACTED: ") {
+				assumptions = append(assumptions, "abstracted (contract flag `abstract`): "+strings.Replace(n, "ABSTRACTED: ", "", 1))
+			}
+		}
 		for k := range imprecise {
 			assumptions = append(assumptions, "imprecise operator (uninterpreted with bounds only): "+k)
 		}
